@@ -141,3 +141,167 @@ Example c12_where_nonvacuous :
   value_less (k KFalse [102]) (n 0%Z) = true /\ value_less (n 0%Z) (s [97]) = true /\
   value_less (s [97]) (k KTrue [116]) = true /\ value_less (k KTrue [116]) (k KJSON [123; 125]) = true.
 Proof. vm_compute. repeat split. Qed.
+
+(* ====================================================================================
+   WHERE "<expr>": the expression form of the field filter (Model/WhereExpr.v transcribes
+   github.com/tidwall/expr's Eval with tile38's extender, Model/WhereExprTree.v is the tree a
+   filter is meant to be, Model/WhereExprScan.v the expression arm of fieldMatch).
+   ==================================================================================== *)
+From T38 Require Import Model.Float32 Model.WhereExpr Model.WhereExprF64 Model.WhereExprScan Model.WhereExprTree.
+From T38 Require Import Proofs.WhereExprSafe Proofs.WhereExprSem Proofs.WhereExprProps.
+
+(* The evaluator never panics and always terminates: on every byte string, for every object and
+   every behaviour of the opaque libraries, expr.Eval (and matchExpr on top of it) returns a value
+   or an error; none of the index / slice expressions of the Go code can go out of range and none
+   of the fuelled loops of the model runs dry.  detectExprToken never panics either. *)
+Theorem c12_expr_never_panics_terminates :
+  forall (F : Type) (O : oracle F) (obj : eobj F) (e : bytes),
+    (eval F O obj e <> Panic /\ eval F O obj e <> NoFuel) /\
+    (match_expr F O obj e <> Panic /\ match_expr F O obj e <> NoFuel).
+Proof. exact (fun F O obj e => conj (eval_safe F O obj e) (match_expr_safe F O obj e)). Qed.
+Print Assumptions c12_expr_never_panics_terminates.
+
+Theorem c12_expr_detect_token_total : forall vs, exists b, detect_expr_token vs = Ok b.
+Proof. exact detect_expr_token_safe. Qed.
+Print Assumptions c12_expr_detect_token_total.
+
+(* readGroup (the bracket / quote skipper every level relies on) returns a prefix of its input of
+   at least two bytes, or an error. *)
+Theorem c12_expr_group_is_prefix : forall data g,
+  read_group data = Ok g -> (2 <= length g)%nat /\ exists r, data = g ++ r.
+Proof. exact read_group_prefix. Qed.
+Print Assumptions c12_expr_group_is_prefix.
+
+(* Evaluating the printed text of a well-formed filter tree is the denotation of the tree: the
+   string splitter finds exactly the structure the printer wrote (precedence levels, parentheses,
+   quoted literals, the operators == != < <= > >= && || !), for every tree, object and oracle.
+   This is the round trip of the (tree-less) parser: print, then evaluate = denote. *)
+Theorem c12_expr_print_eval :
+  forall (F : Type) (O : oracle F) (obj : eobj F) (e : bexpr),
+    wf e = true -> eval F O obj (print e) = den F O obj e.
+Proof. exact (fun F O obj => eval_print O obj). Qed.
+Print Assumptions c12_expr_print_eval.
+
+Theorem c12_expr_print_match :
+  forall (F : Type) (O : oracle F) (obj : eobj F) (e : bexpr),
+    wf e = true -> match_expr F O obj (print e) = den_match F O obj e.
+Proof. exact (fun F O obj => match_print O obj). Qed.
+Print Assumptions c12_expr_print_match.
+
+(* && || ! are the Boolean connectives of the truth values of their operands whenever both
+   operands evaluate to something that has one; evaluating both operands (there is no short
+   circuit in the evaluator) gives what a short-circuiting reading gives; double negation,
+   De Morgan and commutativity hold. *)
+Theorem c12_expr_bool_semantics :
+  forall (F : Type) (O : oracle F) (obj : eobj F) a b ba bb,
+    holds O obj a ba -> holds O obj b bb ->
+    den_match F O obj (BAnd a b) = Ok (sc_and ba bb) /\
+    den_match F O obj (BOr a b) = Ok (sc_or ba bb) /\
+    den_match F O obj (BNot a) = Ok (negb ba) /\
+    den_match F O obj (BNot (BNot a)) = Ok ba /\
+    den_match F O obj (BNot (BAnd a b)) = den_match F O obj (BOr (BNot a) (BNot b)) /\
+    den_match F O obj (BNot (BOr a b)) = den_match F O obj (BAnd (BNot a) (BNot b)) /\
+    den_match F O obj (BAnd a b) = den_match F O obj (BAnd b a) /\
+    den_match F O obj (BOr a b) = den_match F O obj (BOr b a).
+Proof. exact (fun F O obj => bool_semantics O obj). Qed.
+Print Assumptions c12_expr_bool_semantics.
+
+(* ... but an operand that fails rejects the object whatever the other operand says: with a
+   short circuit, true || <error> would keep the object.  Witness (float64 instance): a string
+   object with f = 5 and the filter (f > 1) || (type == "Point"). *)
+Theorem c12_expr_or_short_circuit_refuted :
+  exists (o : sobj) (e1 e2 : bexpr),
+    wf (BOr e1 e2) = true /\
+    den_match f64 f64_plain (f64_obj o) e1 = Ok true /\
+    (exists x, den f64 f64_plain (f64_obj o) e2 = Err x) /\
+    match_expr f64 f64_plain (f64_obj o) (print (BOr e1 e2)) = Ok false.
+Proof.
+  exact (ex_intro _ witness_str_obj (ex_intro _ _ (ex_intro _ _
+    (conj (proj1 or_error_witness) (conj (proj1 (proj2 or_error_witness))
+      (conj (ex_intro _ EUndef (proj1 (proj2 (proj2 or_error_witness)))) (proj2 (proj2 (proj2 or_error_witness))))))))).
+Qed.
+Print Assumptions c12_expr_or_short_circuit_refuted.
+
+(* A scan filtered by WHERE clauses (expression and field clauses mixed) keeps exactly the objects
+   every clause accepts, in iteration order; DESC only reverses; with one expression clause that
+   is the printed text of a tree it keeps exactly the objects on which the tree holds. *)
+Theorem c12_expr_scan_exact :
+  forall (F : Type) (O : oracle F) mt desc objs cs (k : wclause -> sobj -> bool),
+    (forall c o, In c cs -> In o objs -> clause_match F O mt c o = Ok (k c o)) ->
+    scan_expr_ids F O mt desc objs cs =
+      Ok (map so_id (filter (fun o => forallb (fun c => k c o) cs) (if desc then rev objs else objs))).
+Proof. exact (fun F O mt => scan_expr_exact O mt). Qed.
+Print Assumptions c12_expr_scan_exact.
+
+Theorem c12_expr_scan_desc_reverses :
+  forall (F : Type) (O : oracle F) mt objs cs ids,
+    scan_expr_ids F O mt false objs cs = Ok ids ->
+    (forall c o, In c cs -> In o objs -> exists b, clause_match F O mt c o = Ok b) ->
+    scan_expr_ids F O mt true objs cs = Ok (rev ids).
+Proof. exact (fun F O mt => scan_expr_desc O mt). Qed.
+Print Assumptions c12_expr_scan_desc_reverses.
+
+Theorem c12_expr_scan_keeps_what_the_tree_says :
+  forall (F : Type) (O : oracle F) mt desc objs e (keep : sobj -> bool),
+    wf e = true ->
+    (forall o, In o objs -> den_match F O (to_eobj F O (mt (so_id o)) o) e = Ok (keep o)) ->
+    scan_expr_ids F O mt desc objs [WExpr (print e)] =
+      Ok (map so_id (filter keep (if desc then rev objs else objs))).
+Proof. exact (fun F O mt => scan_print_exact O mt). Qed.
+Print Assumptions c12_expr_scan_keeps_what_the_tree_says.
+
+(* WHERE f a b and WHERE "(f >= a) && (f <= b)" (with > / < for a bound written "(a") agree on
+   every object whose field f is missing or a finite number, for integer bounds (negative ones
+   written (-a) in the expression), under every oracle that compares stored numbers and integer
+   literals as the numbers they are.  Partial: not for the other kinds of field values (next
+   theorem); fractional bounds are outside the tree type. *)
+Theorem c12_expr_range_agrees_partial :
+  forall (F : Type) (O : oracle F) (o : sobj) mt f minx a maxx b,
+    num_agree O -> wf_name f = true -> not_pseudo f ->
+    (-1000000000000 < a < 1000000000000)%Z -> (-1000000000000 < b < 1000000000000)%Z ->
+    numeric_field (so_fields o) f ->
+    den_match F O (to_eobj F O mt o) (range_tree f minx a maxx b) =
+      Ok (match_field (where_make minx (num_value (1000 * a)) maxx (num_value (1000 * b)))
+            (get_field (so_fields o) f)).
+Proof. exact (fun F O => range_agrees O). Qed.
+Print Assumptions c12_expr_range_agrees_partial.
+
+(* Outside finite numbers the two forms differ: f = +Inf is inside WHERE f 5 +inf but fails
+   WHERE "f >= 5" (the evaluator is handed the JSON string "+Inf"); t = true is outside
+   WHERE t 0 10 but passes (t >= 0) && (t <= 10) (true counts as 1). *)
+Theorem c12_expr_range_vs_expr_refuted :
+  exists (o : sobj),
+    match_field (where_make false (num_value 5000) false v_inf) (get_field (so_fields o) s_f) = true /\
+    den_match f64 f64_plain (f64_obj o) (BCmp CGe (AField s_f) (ANum 5)) = Ok false /\
+    match_expr f64 f64_plain (f64_obj o) (print (BCmp CGe (AField s_f) (ANum 5))) = Ok false /\
+    match_field (where_make false (num_value 0) false (num_value 10000)) (get_field (so_fields o) s_t) = false /\
+    den_match f64 f64_plain (f64_obj o) (range_tree s_t false 0 false 10) = Ok true.
+Proof. exact (ex_intro _ witness_obj range_vs_expr_witness). Qed.
+Print Assumptions c12_expr_range_vs_expr_refuted.
+
+(* Two spellings are not read the way they are meant (open findings C12-expr-ident-e-sign and
+   C12-expr-sign-after-factor): an identifier ending in e / E directly followed by + or - is taken
+   for scientific notation, and a sign directly after * / % is refused; both are syntax errors,
+   the error is swallowed by matchExpr and no object is kept.   price-10 > 0   vs   price - 10 > 0,
+   price*-1 < 3   vs   price * (-1) < 3   on an object with price = 25. *)
+Theorem c12_expr_spelling_refuted :
+  exists (o : sobj),
+    eval f64 f64_plain (f64_obj o) txt_price_minus = Err ESyntax /\
+    match_expr f64 f64_plain (f64_obj o) txt_price_minus = Ok false /\
+    match_expr f64 f64_plain (f64_obj o) txt_price_minus_sp = Ok true /\
+    eval f64 f64_plain (f64_obj o) txt_mul_neg = Err ESyntax /\
+    match_expr f64 f64_plain (f64_obj o) txt_mul_neg = Ok false /\
+    match_expr f64 f64_plain (f64_obj o) txt_mul_neg_par = Ok true.
+Proof. exact (ex_intro _ witness_obj spelling_witness). Qed.
+Print Assumptions c12_expr_spelling_refuted.
+
+(* non-vacuity: (price < 30) && (!(t == false)) is well formed, prints as expected and holds on
+   the witness object; num_agree is satisfiable (exact arithmetic on thousandths). *)
+Example c12_expr_nonvacuous :
+  (wf sample_tree = true /\
+   print sample_tree = [40; 112; 114; 105; 99; 101; 32; 60; 32; 51; 48; 41; 32; 38; 38; 32; 40; 33; 40; 116; 32; 61; 61; 32;
+                        102; 97; 108; 115; 101; 41; 41]%N /\
+   match_expr f64 f64_plain (f64_obj witness_obj) (print sample_tree) = Ok true /\
+   den_match f64 f64_plain (f64_obj witness_obj) sample_tree = Ok true) /\
+  num_agree toy_oracle.
+Proof. exact (conj sample_tree_ok toy_num_agree). Qed.
